@@ -141,7 +141,9 @@ def rsqMech (l : List Pt) : V :=
 /-- square of the returned `error` (unweighted residual variance with n − 2 degrees of freedom) -/
 def err2 (l : List Pt) : Rat :=
   if l.length > 2 then
-    S (fun p => ((intercept l + p.x * gradient l) - p.y) ^ 2) l / ((l.length : Rat) - 2)
+    let g := gradient l     -- `coef[1]`, `coef[0]`: computed once
+    let c := intercept l
+    S (fun p => ((c + p.x * g) - p.y) ^ 2) l / ((l.length : Rat) - 2)
   else 0
 
 /-- attributes set by `update_linreg`; `rsq`/`err2` = `none` is Python `None`,
@@ -198,6 +200,19 @@ def calibrate (g c : Rat) (d : V) : V :=
   if c = 0 ∧ g = 1 then d
   else d.bind (fun q => if g = 0 then none else some ((q - c) / g))
 
+/-- specification of `calibrate`: the concentration of a response `r` under the line `g·x + c` is the one value
+`(r − c) / g` — the pure formula, no shortcut, whatever number type the array holds the response in (the harness
+hands over every element as the exact rational its dtype denotes: raw counts of any integer width, binary32,
+binary64).  NaN stays NaN. -/
+def specCalibrate (g c : Rat) (d : V) : V := d.map (fun r => (r - c) / g)
+
+/-- a response lies on the line at concentration `x` -/
+def onLine (g c : Rat) (r x : V) : Bool :=
+  match r, x with
+  | some r, some x => decide (g * x + c = r)
+  | none, none => true
+  | _, _ => false
+
 /-! ## sessions: several operations on one object
 
 `calibrate` reads nothing but the `gradient` and `intercept` attributes at the time of the call.  They are
@@ -236,9 +251,9 @@ def run (o : Fit) : List Step → List (List V)
 
 def meanX(l : List Pt) : Rat := Swx l / Sw l
 def meanY (l : List Pt) : Rat := Swy l / Sw l
-def sxx (l : List Pt) : Rat := S (fun p => p.w * (p.x - meanX l) ^ 2) l
-def syy (l : List Pt) : Rat := S (fun p => p.w * (p.y - meanY l) ^ 2) l
-def sxy (l : List Pt) : Rat := S (fun p => p.w * (p.x - meanX l) * (p.y - meanY l)) l
+def sxx (l : List Pt) : Rat := let mx := meanX l; S (fun p => p.w * (p.x - mx) ^ 2) l
+def syy (l : List Pt) : Rat := let my := meanY l; S (fun p => p.w * (p.y - my) ^ 2) l
+def sxy (l : List Pt) : Rat := let mx := meanX l; let my := meanY l; S (fun p => p.w * (p.x - mx) * (p.y - my)) l
 
 /-- textbook weighted least squares: slope = weighted covariance / weighted variance,
 the line passes through the weighted centroid -/
@@ -302,6 +317,28 @@ def specErr2 (l : List Pt) : Rat :=
       + g ^ 2 * S (fun p => p.x * p.x) l + 2 * g * c * S (fun p => p.x) l + c ^ 2 * (l.length : Rat))
       / ((l.length : Rat) - 2)
   else 0
+
+/-! ### the whole clause, stated on the NaN-free table
+
+"…once rows containing NaN are set aside … the fit does not change when points are reordered or NaN rows are
+interleaved": the table handed to pewlib (`rows`) is a NaN-free table (`clean`) with rows containing NaN inserted at
+any positions — a relation stated by itself, without the mask `update_linreg` computes — in any order. -/
+
+/-- `NanInsert clean rows`: `rows` is `clean` (every row with both cells finite) with any number of rows that have NaN
+in either or both cells inserted at any positions -/
+inductive NanInsert : List Row → List Row → Prop
+  | nil : NanInsert [] []
+  | keep (r : Row) {c l : List Row} : r.x.isSome = true → r.y.isSome = true → NanInsert c l → NanInsert (r :: c) (r :: l)
+  | nan (n : Row) {c l : List Row} : (n.x = none ∨ n.y = none) → NanInsert c l → NanInsert c (n :: l)
+
+/-- the (x, y, w) triples of a NaN-free table as the property states them: for a built-in weighting the
+entry-by-entry weights (`specWeights`) of the concentration (response) column, for a custom weighting the vector
+given — no mask, no `nanmin`, no replacement pass -/
+def specPts (wt : Weighting) (clean : List Row) : List Pt :=
+  let ws : List V := match wt with
+    | .builtin b => specWeights (clean.map (fun r => if b.onY then r.y else r.x)) b.kind
+    | .custom => clean.map (·.cw)
+  mkPts clean ws
 
 /-- the hypothesis of the property on the fitted rows: positive weights and two distinct
 concentrations -/
